@@ -1,5 +1,4 @@
 """C09 - restrictions on student formulas cannot be bypassed to obtain credit."""
-import itertools
 import re
 
 from hypothesis import strategies as st
@@ -516,7 +515,6 @@ def context(draw, kind, clause):
         head = draw(st.sampled_from(['a', 'b', 'p', 'Cat']))
         if head not in c.vs:
             c.kw['numbered_vars'] = [head]
-            c.numbered = head
             c.extra_atoms += [('%s_{1}' % head, '%s_{1}' % head),
                               ('%s_{2}*%s_{1}' % (head, head), '%s_{1}*%s_{2}' % (head, head)),
                               ('%s_{0}+%s_{-3}' % (head, head), '%s_{-3}+%s_{0}' % (head, head))]
@@ -641,10 +639,6 @@ def problem(draw, kind=None, clause=None):
         restr = {'required_functions': req}
         spec['required'] = req
         author_constructs = [fcall(f, '2' if f in c.user_funcs else None) for f in req]
-    elif clause == 'forbidden':
-        pass
-    elif clause == 'instructor':
-        no_twin = False
     # the remaining clauses are filled in below, once the core formulas exist
 
     funcs_for_pair = [f for f in honest_funcs if permitted is None or f in permitted]
@@ -845,9 +839,6 @@ def problem(draw, kind=None, clause=None):
     # ---------------- the author's answer may use the restricted construct
     if clause in ('blacklist', 'whitelist', 'whitelist-none', 'required'):
         A, used = draw(author_side(A, author_constructs, False))
-        if clause == 'required' and not used:
-            # required functions are not demanded of the author's answer; fine either way
-            pass
         if used:
             tags.append('author-uses-construct')
 
